@@ -274,11 +274,28 @@ def search(ctx):
     cl = cases(ctx)
     miss = {}
     skipped = 0
+    # "is this plan a failure?" is asked of the implementation (the identical call without ignore_exc raises) AND of the proved model:
+    # a change that makes the client accept a damaged reply would otherwise hide its own failures from this search
+    model_fails = {}
+    if ctx.driver is not None:
+        try:
+            hk = cs.handler_kinds()
+            reqs = []
+            for c, op, sc, ch, rep in cl:
+                ops, rbo = _ops(op, rep, c)
+                reqs.append(cs.model_req(dict(c, ignore_exc=False), ops[:1], sc, ch, [rbo[0]], hk))
+            for case, m in zip(cl, ctx.driver.call_many(reqs)):
+                mm = cs.decode_model(m)
+                model_fails[repr(case)] = bool(mm and mm[0] and mm[0][0][0] == "e" and mm[0][0][1] != "WouldBlock")
+        except Exception:  # noqa
+            model_fails = {}
     for stack in STACKS:
         for c, op, sc, ch, rep in cl:
             if sc == [] and ch == [] and rep == b"END\r\n":
                 continue
             fails, used_up = fails_without_ignore(c, op, sc, ch, rep)
+            if not fails and model_fails.get(repr((c, op, sc, ch, rep))):
+                fails, used_up = True, False
             if not fails:
                 skipped += 1
                 continue
